@@ -50,6 +50,7 @@ type upstream struct {
 	gv    string
 	rules oracle.Rules
 	spec  sut.UpstreamSpec
+	flow  *sut.LoginResult // a started login flow (state + CSRF cookie) of this upstream; owned by the upstream's worker
 }
 
 const (
